@@ -4,6 +4,10 @@ import re
 T = "RsslVerif.Thm.C02."
 TS = "RsslVerif.Thm.C02Sem."
 TV = "RsslVerif.Thm.C02Vec."
+TD = "RsslVerif.Thm.C02Dup."
+DUP_THEOREMS = ["dup_sites_guarded", "guard_rows_are_ir_constructors", "repeatable_operand_is_pure_of_sound", "repeatable_operand_is_pure",
+                "struct_cast_meaning_kept", "struct_cast_refuses_iff", "wf_toD", "repeatable_operand_is_pure_ir_of_sound",
+                "repeatable_operand_is_pure_ir", "index_blind_test_repeats_effect"]
 VEC_THEOREMS = ["msl_exporter_vec_shape_as_modelled", "msl_swizzle_letters_are_identity", "msl_vector_type_names_roundtrip",
                 "vec1_is_named_as_scalar", "vec_shape_sound", "gen_sem_msl_vec_expr", "gen_sem_msl_vec_assign", "msl_vector_op_literal_in_concrete_type",
                 "literal_vector_cast_panics_msl",
@@ -148,6 +152,22 @@ def search(ctx):
         ("struct S { float3 a; int2 b; };\nint f(S s, int k) { s.b.y = k; return s.b.y + (int)s.a.z; }", "S(V(f:3f800000 f:40000000 f:40400000) V(i:00000001 i:00000002)),i:00000009"),
     ]:
         out.append("C02.vfn\t%s\tf\t%s\t-\t-" % (src, args))
+    # operand repetition: struct casts (1 / 4 / 7 elements) from every operand shape, with and without an effect in the
+    # operand or in an index below it; then an effect in each operand position the exporter writes once today
+    pre = ("struct I2 { int p; int q; };\\nstatic int gk = 3;\\nstatic int gcount = 0;\\n"
+           "int next(int n) { gcount++; return gcount % n; }\\nint bump(int d) { gk = gk + d; return gk; }\\n")
+    operands = ["x", "gk", "0", "arr[i & 3]", "p.q", "v.y", "(x + 1)", "parr[i & 1].p", "arr[(i++) & 3]", "arr[next(4)]", "parr[next(2)].q",
+                "varr[(i++) & 1].y", "x++", "bump(x)", "(x = x + 1)", "(b ? x++ : x)", "(i++, x)", "arr[(i = x) & 3]"]
+    shapes = ["struct S { int a; };", "struct S { int a; int b; int c[2]; };", "struct S { I2 a; I2 b[2]; int c; };", "struct S { int a; int3 w; };"]
+    for sh in shapes:
+        for e in operands:
+            out.append("C02.vfn\t%s%s\\nS f(int x, int arr[4], inout int i, I2 p, I2 parr[2], int3 v, int3 varr[2], bool b) { S s = (S)%s; return s; }\t-\t\t-\t-"
+                       % (pre, sh, e))
+    for st in ["r = (int3)(x++);", "r = int3(x++, x, bump(x));", "r = (x++).xxx;", "arr[(i++) & 3] += x; r.x = arr[0] + arr[1] + arr[2] + arr[3];",
+               "arr[next(4)] *= 3; r.x = arr[0] + arr[1] + arr[2] + arr[3];", "varr[(i++) & 1].zx = r.xy; r = varr[0] + varr[1];",
+               "arr[next(4)]++; r.x = arr[0] + arr[1] + arr[2] + arr[3];", "r.y = (i++ > 0) ? x : bump(x);", "r = max(r, x++) + min(bump(x), r);",
+               "r = select(bool3(b, !b, b), r + (int3)(x++), (int3)bump(x));", "r[(i++) & 1] += bump(x);"]:
+        out.append("C02.vfn\t%sint3 f(int x, int arr[4], inout int i, int3 v, int3 varr[2], bool b) { int3 r = v; %s return r + x + i; }\t-\t\t-\t-" % (pre, st))
     return out
 
 
@@ -184,8 +204,8 @@ def custom_vec(ctx):
 
 SPEC = {
     "id": "C02",
-    "gens": ["UsageTables", "MslGenTables", "MslVecTables"],
-    "lean_modules": ["RsslVerif.Thm.C02", "RsslVerif.Thm.C02Sem", "RsslVerif.Thm.C02Vec"],
+    "gens": ["UsageTables", "MslGenTables", "MslVecTables", "MslDupSites"],
+    "lean_modules": ["RsslVerif.Thm.C02", "RsslVerif.Thm.C02Sem", "RsslVerif.Thm.C02Vec", "RsslVerif.Thm.C02Dup"],
     "theorems": [T + n for n in [
         "tables_as_modelled", "all_positions_descended", "implicit_names_agree",
         "recurse_no_panic", "recurse_terminates", "measure_bounded_and_increasing", "close_is_reachability",
@@ -193,7 +213,7 @@ SPEC = {
         "requiredP_order_independent", "required_monotone", "args_align", "args_unchanged_without_implicit", "args_aligned_with_defaults",
         "threaded_exactly_partial", "calculateLocal_wf", "closeProgram_ok", "threaded_exactly_program_partial",
         "mentions_calculateLocal", "threaded_exactly",
-        "default_arguments_analysed", "global_initialisers_analysed"]] + [TS + n for n in SEM_THEOREMS] + [TV + n for n in VEC_THEOREMS],
+        "default_arguments_analysed", "global_initialisers_analysed"]] + [TS + n for n in SEM_THEOREMS] + [TV + n for n in VEC_THEOREMS] + [TD + n for n in DUP_THEOREMS],
     "harness": "c02",
     "nontrivial": nontrivial,
     "finding_key": finding_key,
